@@ -17,6 +17,8 @@ def rq(v):
     return z3.Q(f.numerator, f.denominator)
 
 
+import operator
+_CMP = {np.greater_equal: operator.ge, np.greater: operator.gt, np.less_equal: operator.le, np.less: operator.lt}
 NARROW = {}
 USQRT = z3.Function('SQRT', z3.RealSort(), z3.RealSort())
 
@@ -135,6 +137,11 @@ class Sym(np.ndarray):
             res = np.vectorize(usqrt, otypes=[object])(raws[0]) if np.size(raws[0]) else np.empty(np.shape(raws[0]), dtype=object)
         elif ufunc in (np.add, np.subtract, np.multiply, np.true_divide, np.negative):
             res = ufunc(*[_coerce(r) for r in raws])
+        elif ufunc in _CMP:
+            op = _CMP[ufunc]
+            a, b = [_coerce(r) for r in raws]
+            res = np.vectorize(lambda p, q: op(rq(p) if isinstance(p, z3.ExprRef) or isinstance(q, z3.ExprRef) else p, q), otypes=[object])(a, b)
+            return res.view(Sym) if isinstance(res, np.ndarray) else res
         else:
             return NotImplemented
         if out is not None:
